@@ -54,6 +54,7 @@ type tcase struct {
 	E2E     *e2eCase `json:"e2e"`
 	Rounds  int      `json:"rounds"`
 	E2EV    *e2evCase `json:"e2ev"`
+	E2EG    *e2egCase `json:"e2eg"`
 }
 
 // state as [subj, auth, resource]; nil pointer -> nil slice (JSON null)
@@ -117,6 +118,7 @@ type result struct {
 	Hist  [][]any   `json:"hist,omitempty"`
 	E2E   *e2eOut   `json:"e2e,omitempty"`
 	Race  *e2eRaceOut `json:"e2erace,omitempty"`
+	E2EG  *e2egOut    `json:"e2eg,omitempty"`
 	Panic *string   `json:"panic"`
 }
 
@@ -347,10 +349,14 @@ func runCase(c tcase) (res result) {
 		res.E2E = runE2E(c.E2E)
 	case "e2ev":
 		res.E2E = runE2EV(c.E2EV)
+	case "e2eg":
+		res.E2EG = runE2EG(c.E2EG)
 	case "e2erace":
 		res.Race = runE2ERace(c.Rounds)
 	case "ctlrace":
 		res.Race = runCtlRace(c.Rounds)
+	case "ctlwrap":
+		res.Race = runCtlWrap(c.Rounds)
 	default:
 		res.Outs = runCtl(c)
 	}
@@ -416,6 +422,67 @@ func runCtlRace(rounds int) *e2eRaceOut {
 			}
 		}
 		gB.Release()
+	}
+	return out
+}
+
+// runCtlWrap: a region that stays alive across more than 2^16 gate opens. Gate K (authority
+// 5) is opened early, gate L (authority 5) after `cycles` further open/release pairs of a
+// third subject; then a higher gate H opens and releases. Control must go back to K, the
+// earliest-opened of the two highest gates, however many gates the region has seen.
+func runCtlWrap(cycles int) *e2eRaceOut {
+	out := &e2eRaceOut{Rounds: cycles, Failures: []string{}}
+	r := newRun(false)
+	mx := int64(telem.TimeStampMax)
+	fail := func(f string, a ...any) { out.Failures = append(out.Failures, fmt.Sprintf(f, a...)) }
+	churn := func(n int) bool {
+		for i := 0; i < n; i++ {
+			g, _, err := r.open(opT{Subj: 2, Auth: 1, S: 0, E: mx})
+			if err != nil {
+				fail("churn open: %v", err)
+				return false
+			}
+			g.Release()
+		}
+		return true
+	}
+	if _, _, err := r.open(opT{Subj: 1, Auth: 1, S: 0, E: mx}); err != nil {
+		fail("open X: %v", err)
+		return out
+	}
+	if !churn(70) {
+		return out
+	}
+	gK, _, err := r.open(opT{Subj: 3, Auth: 5, S: 0, E: mx})
+	if err != nil {
+		fail("open K: %v", err)
+		return out
+	}
+	if !churn(cycles - 70) {
+		return out
+	}
+	gL, tL, err := r.open(opT{Subj: 4, Auth: 5, S: 0, E: mx})
+	if err != nil {
+		fail("open L: %v", err)
+		return out
+	}
+	if tL.Occurred() {
+		fail("opening L (authority 5, opened after K) transferred control: %v", tL)
+	}
+	gH, _, err := r.open(opT{Subj: 5, Auth: 9, S: 0, E: mx})
+	if err != nil {
+		fail("open H: %v", err)
+		return out
+	}
+	_, tH := gH.Release()
+	if tH.To == nil || tH.To.Subject.Key != subjKey(3) {
+		fail("after %d gate opens in the region, releasing the controller handed control to %v instead of the earliest-opened highest gate s3", cycles+4, tH.To)
+	}
+	if _, err := gK.Authorize(); err != nil {
+		fail("K (earliest-opened highest gate) is not authorized: %v", err)
+	}
+	if _, err := gL.Authorize(); err == nil {
+		fail("L (opened after K at the same authority) is authorized on an exclusive region")
 	}
 	return out
 }
